@@ -151,7 +151,7 @@ class ApiInterp:
         desc_before = dict(self.desc)
         bounds = getattr(self, "op_" + op[0])(*op[1:])
         self.rig.loop.settle()
-        if len(self.rig.net.conns) != conn_before or self.tr is None:
+        if op[0] != "reinit" and (len(self.rig.net.conns) != conn_before or self.tr is None):
             self.bad("reset", f"operation {op[0]} disturbed the connection")
         self.check_model(f"after {op[0]} #{len(self.ops) - 1}")
         if bounds is not None:
@@ -300,6 +300,38 @@ class ApiInterp:
         new[which] = {"disabled": False, "hour": call[3], "minute": call[4]} if call[0] == "timer_time" else \
             {"disabled": True, "hour": 0, "minute": 0}
         return self.op_timer_status({str(n): new})
+
+    def op_reinit(self):
+        """The application shuts the client down and initialises the same object again against the same console (a
+        reload): the model is rebuilt from scratch and must again equal the console's reports; subscriptions made on
+        the old objects are gone."""
+        c = self.rig.console
+        r = self.rig.loop.call(self.at.shutdown())
+        if r[0] != "ok":
+            self.bad("shutdown", f"shutdown(): {r!r}")
+        self.rig.loop.advance(1.0)
+        c.step_count = {}
+        n_req0 = len(c.requests)
+        r = self.rig.run_init()
+        if r != ("ok", True):
+            self.bad("reinit", f"init() after shutdown(): {r!r}")
+        self.rig.loop.settle()
+        self.acs = {a.ac_id: a for a in self.at.air_conditioners}
+        self.zones = {z.zone_id: z for a in self.at.air_conditioners for z in a.zones}
+        self.active.clear()
+        self.both_regs.clear()
+        self.subs.clear()
+        self.raising.clear()
+        self.acting.clear()
+        self.desc = {n: None for n in self.desc}
+        for (_t, _cid, kind, payload, _f) in c.requests[n_req0:]:
+            if kind == "error_req" and payload in self.desc:
+                if c.error_mode == "text":
+                    self.desc[payload] = c.error_text.get(payload)
+                elif c.error_mode == "empty":
+                    self.desc[payload] = None
+        self.nt.add("reinit")
+        return None
 
     def op_error_mode(self, mode, texts):
         c = self.rig.console
